@@ -262,6 +262,15 @@ def run(ctx: Ctx):
             f"CodeGenerator.scheme passes name={_avcg.show(kw_name) if kw_name else None} to the builder but return_name={_avcg.show(kw_ret) if kw_ret else None} to the template",
             cg.where(),
         )
+    # ... and allocates it with the expression the argument table provides (checked above to be a fresh array), on every
+    # path and for every shape: an allocation rewritten on the way (asarray / a view of `states`) aliases the caller's array
+    if tcalls:
+        vt_ = dict(tcalls[0][4]).get("values_type")
+        if vt_ is None or _avcg.has_unk(vt_):
+            ctx.undecided("R05.c", cg.key("allocation-unmodified"), "the values_type handed to the method template is not understood", cg.where())
+        else:
+            okv = vt_[0] == "attr" and vt_[2] == "values_type" and vt_[1][0] == "mcall" and vt_[1][2] == "_scheme_arguments"
+            ctx.check(okv, "R05.c", cg.key("allocation-unmodified"), "values_type = self._scheme_arguments(order).values_type", f"CodeGenerator.scheme allocates the result with `{_avcg.show(vt_)[:140]}`, not with the allocation expression of the argument table as it is: on some path the step no longer writes into a fresh array (its input can be overwritten and returned)", cg.where())
     # C backend: const formals
     from sa import av as _av
 
